@@ -361,44 +361,67 @@ def rule_retry(ctx, scope='off', rule='A2.retry'):
 
 
 def _position_neutral(ctx, f, cfg, y, ynode, reads):
-    # reaching read result variable
-    rvars = {}
+    """Every stream read that can precede the suspension is compensated before it: nothing consumed (None/empty),
+    `seek(-len(v), SEEK_CUR)` on every path, or `if v: seek(-N, SEEK_CUR)` for a read of constant size N."""
+    rvars = []
     for r in reads:
         st = _stmt_of(r, f.node)
         if isinstance(st, ast.Assign) and len(st.targets) == 1 and isinstance(st.targets[0], ast.Name) and st.value is r:
-            rvars[st.targets[0].id] = r
+            rvars.append((st.targets[0].id, r, cfg.node_of[st]))
+        else:
+            return False, 'the result of `%s` is not bound to a variable' % norm(r)
     if not rvars:
-        return False, 'the read result is not bound to a variable'
-    var = sorted(rvars)[0]
-    stream = rvars[var].func.value.id
-    # facts about `var` implied by the control dependences of the yield
-    none_or_empty = False
-    node = ynode
+        return False, 'no stream read found'
+    # transitive control dependences of the yield
+    deps = []
     seen = set()
     work = [ynode]
     while work:
         n = work.pop()
         for b, lab in cfg.control_deps(n):
-            if (b, lab) in seen:
-                continue
-            seen.add((b, lab))
-            if b.kind == 'test':
-                t = norm(b.ast.test)
-                if lab == 'true' and t in ('%s is None' % var, 'not %s' % var):
-                    none_or_empty = True
-            work.append(b)
-    if none_or_empty:
-        return True, 'suspension only when the read returned None/empty: no octets consumed'
-    if rvars[var].func.attr == 'peek':
-        return True, 'peek does not advance the stream'
-    # need `stream.seek(-len(var), os.SEEK_CUR)` dominating the yield after the read
-    want = '%s.seek(-len(%s), os.SEEK_CUR)' % (stream, var)
-    readnode = cfg.node_of[_stmt_of(rvars[var], f.node)]
-    seeks = [n for n in cfg.stmt_nodes() if n.kind == 'stmt' and norm(n.ast) == want]
-    for s in seeks:
-        if cfg.dominates(s, ynode) and cfg.must_pass(readnode, ynode, lambda n: n is s):
-            return True, 'short read rewound by `%s` on every path from the read to the yield' % want
-    return False, 'octets may have been consumed by `%s.read` but no `%s` lies on every path to the yield' % (stream, want)
+            if (b, lab) not in seen:
+                seen.add((b, lab))
+                deps.append((b, lab))
+                work.append(b)
+    reasons = []
+    # at every other suspension the position has been restored already: only reads of the current trip matter
+    others = set()
+    for n in cfg.stmt_nodes():
+        if n is not ynode and n.kind == 'stmt' and any(isinstance(x, ast.Yield) for x in ast.walk(n.ast)):
+            others.add(n)
+    for var, r, rnode in rvars:
+        if ynode not in cfg.reachable(rnode, avoid=others):
+            continue   # this read cannot precede the suspension
+        stream = r.func.value.id
+        if r.func.attr == 'peek':
+            reasons.append('%s: peek does not advance' % var)
+            continue
+        if any(b.kind == 'test' and lab == 'true' and norm(b.ast.test) in ('%s is None' % var, 'not %s' % var) for b, lab in deps):
+            reasons.append('%s: None/empty, nothing consumed' % var)
+            continue
+        want = '%s.seek(-len(%s), os.SEEK_CUR)' % (stream, var)
+        seeks = [n for n in cfg.stmt_nodes() if n.kind == 'stmt' and norm(n.ast) == want]
+        if any(ynode not in cfg.reachable(rnode, avoid=others | {s_}) for s_ in seeks):
+            reasons.append('%s: rewound by `%s`' % (var, want))
+            continue
+        # constant-size probe: `if v: stream.seek(-N, os.SEEK_CUR)`
+        size = r.args[0] if r.args else None
+        N = None
+        if isinstance(size, ast.Constant) and isinstance(size.value, int) and size.value > 0:
+            N = size.value
+        ok = False
+        if N is not None:
+            for t in cfg.stmt_nodes():
+                if t.kind == 'test' and norm(t.ast.test) == var and not t.ast.orelse and len(t.ast.body) == 1 and \
+                        norm(t.ast.body[0]) == '%s.seek(-%d, os.SEEK_CUR)' % (stream, N) and \
+                        ynode not in cfg.reachable(rnode, avoid=others | {t}):
+                    ok = True
+        if ok:
+            reasons.append('%s: %d-octet probe un-read when it returned data' % (var, N))
+            continue
+        return False, ('octets consumed by `%s = %s` may still be missing from the stream when the generator suspends: '
+                       'no `%s` and no guarded un-read lies on every path to the yield' % (var, norm(r), want))
+    return True, '; '.join(reasons)
 
 
 def rule_retry_on(ctx):
@@ -705,3 +728,26 @@ def rule_oneshot(ctx):
     first = [s for s in src if s.startswith('substrate = asSeekableStream(substrate)')]
     ctx.ob('A2.oneshot', f, 'input normalised by asSeekableStream before decoding', bool(first), 'found: %s' % bool(first),
            nontrivial=False)
+
+
+def rule_iter_total(ctx):
+    """A2.iter: the top-level iterator decodes an item before it may end, so the one-shot wrapper always gets an item
+    or an exception (its `for` loop has nothing after it: falling off would return None)."""
+    fam = family(ctx, 'off')
+    f = ctx.func('codec.ber.decoder.StreamingDecoder.__iter__')
+    cfg = ctx.cfg(f)
+    item = ctx.func('codec.ber.decoder.SingleItemDecoder.__call__')
+    heads = [cfg.node_of[lp] for g, lp, ps in fam.loops if g is f and item in ps]
+    if not heads:
+        raise AnalysisError('item decoder loop not found in %s' % f.short)
+    ok = cfg.exit not in cfg.reachable(cfg.entry, avoid=heads)
+    ctx.ob('A2.iter', f, 'no path to the end of the iterator bypasses the item decoder', ok,
+           'the iterator can finish without having run the item decoder: on an exhausted stream it yields nothing, and '
+           'Decoder.__call__ falls off its loop and returns None instead of raising' if not ok else 'every path runs the item decoder first',
+           node=heads[0].ast)
+    d = ctx.func('codec.ber.decoder.Decoder.__call__')
+    dcfg = ctx.cfg(d)
+    loops = [n for n in dcfg.stmt_nodes() if n.kind == 'for']
+    rets = [n for n in dcfg.stmt_nodes() if n.kind == 'return']
+    ok = len(loops) == 1 and bool(rets) and all(r.loop is loops[0] for r in rets)
+    ctx.ob('A2.iter', d, 'the wrapper returns from inside its loop over the streaming decoder', ok, '', nontrivial=False)
